@@ -515,6 +515,16 @@ func GenOK(r *rand.Rand, idx int, next func() []string) *Tree {
 		// same common file in the long form with its own dir and vars
 		g.diamond(root, &pool)
 	}
+	if idx%6 == 2 {
+		// one file included under many namespaces by the same parent: its include goroutines finish together and
+		// every one of the namespaces must be there
+		x := g.rootFile()
+		n := 12 + g.r.Intn(9)
+		for j := 0; j < n; j++ {
+			g.addInc(root, x, nil).Mapping = g.r.Intn(3) == 0
+		}
+		pool = append(pool, x)
+	}
 	if idx%6 == 4 {
 		// one file that has an include of its own, included twice in the long form with different vars
 		g.twice(root, &pool)
